@@ -94,8 +94,13 @@ func checkEmitters(r *Run, fm *flowModel) []Finding {
 	}
 	var insts []inst
 	for _, t := range s.Tasks {
-		if t.Instrument {
+		switch {
+		case t.Instrument:
 			insts = append(insts, inst{t.Unit, TaskName(t.Unit), t.Fallback})
+		case s.AutoInstr && s.InstrumentD && s.AutoNames[t.Unit] != "":
+			// -auto-instrument: every task of an instrumented flow is
+			// instrumented under an implied name
+			insts = append(insts, inst{t.Unit, s.AutoNames[t.Unit], t.Fallback})
 		}
 	}
 	for _, t := range s.PTasks {
@@ -247,7 +252,7 @@ func checkEmitters(r *Run, fm *flowModel) []Finding {
 				add("emitter %d: task %s was invoked in a run that returned nil, yet TaskSkipped was emitted", i, in.name)
 			}
 		}
-		if !s.AutoInstr {
+		if !(s.AutoInstr && s.Encl == "generic") { // the generic enclosure adds one unmodelled helper task, auto-instrumented under its own name
 			for name := range byName {
 				if !known[name] {
 					add("emitter %d: events for %q, which is not an instrumented task of this directive", i, name)
